@@ -46,7 +46,7 @@ def main(tier, seed):
     ctx = run.Ctx('C07', tier, seed)
     exe = mpmon.exe()
     wd = ctx.workdir()
-    ncases = ctx.n(1200, 30000)
+    ncases = ctx.n(4000, 80000)
 
     def one(k):
         rng = random.Random('%d/%d' % (seed, k))
